@@ -146,6 +146,9 @@ impl Number {
         let one = BigInt::one();
         if den == one {
             let exp: Option<i64> = num.as_int();
+            if exp.unwrap() < 0 && self.value == Numeric::zero() {
+                return Err("Division by zero".to_string());
+            }
             Ok(self.powi(exp.unwrap() as i32))
         } else if num == one {
             let exp: Option<i64> = den.as_int();
